@@ -310,7 +310,23 @@ def _validate(ev: dict) -> str | None:
     return None
 
 
+def tune_malloc():
+    """z3's Context() makes a large allocation that glibc serves by mmap on this VM (0.4-2.5 s per context under load);
+    raising the mmap/trim thresholds keeps it on the heap (measured: ~1 ms).  Forked workers inherit the setting."""
+    try:
+        import ctypes
+
+        libc = ctypes.CDLL("libc.so.6")
+        libc.mallopt(-3, 1 << 30)  # M_MMAP_THRESHOLD
+        libc.mallopt(-1, (1 << 31) - 1)  # M_TRIM_THRESHOLD
+        libc.mallopt(-2, 1 << 28)  # M_TOP_PAD
+    except Exception:
+        pass
+
+
 def guarded_main(prop: str, level: str, body):
+    if os.environ.get("VERIF_NO_MALLOPT") != "1":
+        tune_malloc()
     """Run body(run); any unexpected exception in the harness is exit 2, never a violation."""
     run = Run(prop, level)
     try:
